@@ -4,5 +4,5 @@ set -e
 cd "$(dirname "$0")"
 export CARGO_NET_OFFLINE=true
 (cd lean && lake build TonicModel driver)
-cp -f /repo/Cargo.lock harness/Cargo.lock
+cp -f ../repo/Cargo.lock harness/Cargo.lock
 (cd harness && cargo build --offline)
